@@ -3,7 +3,7 @@ of every execution into the report."""
 import json
 from .report import Violation, Report
 from .explorer import pmap, chunked, Chooser, NPROC
-from .families import f1, f2, f3, f5
+from .families import f1, f2, f3, f5, f6
 
 RULE = {
     "F1": ("F1: every command sequence with <=k deviations from a default policy (menu: odd sizes, oversubscribing batches, wrong pools, "
@@ -29,6 +29,8 @@ def fold(rep, pid, family, sc, tot):
             if isinstance(choices, dict) and "item" in choices:   # F5: (algo, cfg, combo, tps, kw)
                 algo, cfg, combo, tps, kw = choices["item"]
                 rep.add_violations([Violation(family, kind, detail, f5.build(algo, cfg, combo, tps, **kw), [], site=site, family="F5")])
+            elif isinstance(choices, dict) and "f6item" in choices:
+                rep.add_violations([Violation(family, kind, detail, f6.build(choices["f6item"]), [], site=site, family="F6")])
             elif isinstance(choices, dict):   # F3: the case itself
                 rep.add_violations([Violation(family, kind, detail, choices, [], site=site, family=family)])
             else:
@@ -91,12 +93,30 @@ def run_f5(rep, pid, tier, kinds, seed=0, sub=None):
             rep.sample(dict(family="F5", scenario=f5.build(algo, cfg, combo, tps, **kw)))
 
 
+RULE["F6"] = ("F6: the REAL run_simulator on every workload/config of a small alphabet (0-3 scripted pipelines incl. none / after-the-end arrivals, "
+              "all priority assignments, durations 0.4/1/8/20 ticks, 7 scheduler configurations); returned SimulatorStats compared with an independent recount of recorded "
+              "arrivals, decisions, results and the transition log; uncontended chains must finish in exactly the ticks their operators need")
+
+
+def run_f6(rep, pid, tier, kinds=("recount", "uncontended")):
+    for kind in kinds:
+        sp = f6.space(kind, tier)
+        res = pmap(f6.work, chunked(sp, NPROC * 16), chunks=1)
+        for tot in res:
+            fold(rep, pid, "F6:" + kind, None, tot)
+        rep.cov["parts"]["F6:" + kind]["scenarios"] = len(sp)
+        if sp:
+            rep.sample(dict(family="F6", scenario=f6.build(sp[len(sp) // 2])))
+
+
 def sim_main(pid, tier, seed, families, rule_extra=""):
     rep = Report(pid, tier, seed)
     rep.cov["rule"] = "; ".join(dict.fromkeys(RULE[f.split(":")[0]] for f in families)) + "; " + NONTRIVIAL + rule_extra
     for f in families:
         if f.startswith("F5:"):
             run_f5(rep, pid, tier, f[3:].split(","), seed)
+        elif f.startswith("F6"):
+            run_f6(rep, pid, tier)
         else:
             {"F1": run_f1, "F2": run_f2, "F3": run_f3}[f](rep, pid, tier)
     return rep
@@ -105,7 +125,14 @@ def sim_main(pid, tier, seed, families, rule_extra=""):
 def replay(rec):
     fam = rec.get("family", "F1")
     pid = rec["property"]
-    if fam == "F5":
+    if fam == "F6":
+        sc = rec["scenario"]
+        tr = []
+        w, r, stats, exc = f6.run(sc)
+        print("scenario:", json.dumps(sc, default=str))
+        print("stats:", None if stats is None else stats.to_dict())
+        print("exception:", repr(exc))
+    elif fam == "F5":
         sc = rec["scenario"]
         tr = []
         w = f5.run(sc, tr)
